@@ -253,6 +253,8 @@ class World:
             # C04: the controller purges a source only after the transfer it commanded from there was answered, i.e.
             # after the target announced the arrival (a retry of the transfer may still be reading at the source)
             tgt = self.scenario["purge_guard"]["target"]
+            if self.scenario["purge_guard"].get("fetched") and not any(p.header.ds == d for p in self.ctrl_payloads):
+                return False  # the controller also waits for the value of a requested output
             return any(isinstance(m, msg.DatasetPublished) and m.ds == d for m in self.published(tgt))
         return True
 
@@ -502,6 +504,9 @@ SCENARIOS = {
                      "expect": [("not-held", "d", "B"), ("announced", "d", "B", 1, 1)]},
     "T;purge@A": {"initial": [("A", "d")], "commands": [("transmit", "d", "A", "B", 0), ("purge", "d", "A")], "purge_guard": {"1": "after-answer", "target": "B"},
                   "expect": [("held", "d", "B"), ("announced", "d", "B", 1, 1), ("not-held", "d", "A")]},
+    "T+fetch;purge@A": {"initial": [("A", "d")], "commands": [("transmit", "d", "A", "B", 0), ("fetch", "d", "A", 1), ("purge", "d", "A")],
+                        "purge_guard": {"2": "after-answer", "target": "B", "fetched": True},
+                        "expect": [("held", "d", "B"), ("announced", "d", "B", 1, 1), ("fetched", "d"), ("not-held", "d", "A")]},
     "T-to-holder": {"initial": [("A", "d"), ("B", "d")], "commands": [("transmit", "d", "A", "B", 0)],
                     "expect": [("held", "d", "B"), ("announced", "d", "B", 0, 0)]},
     # both directions: B is a source first and a target later; controller Syn numbers overlap the transmit idx space
